@@ -375,3 +375,179 @@ pub fn idl_type<const FIRST: usize, const N: usize>(nd: &mut Nd) {
     cover!(nd, matches!(e, Rec::Yes(n, _) if n == N), "whole input is a type");
     core::mem::forget(r);
 }
+
+// ------------------------------------------------------------------------------------------
+// Mutation family: a corpus text with ONE arbitrary byte at a concrete position. The rest of the
+// text is concrete, so symbolic execution follows essentially one parser path; the solver decides
+// all 128 values of the byte at once. Texts are single-line and comment-free (a `#` introduced by
+// the arbitrary byte comments out the rest of the text and both sides reject it).
+
+fn ws1(b: u8) -> bool {
+    matches!(b, b' ' | b'\t' | b'\n' | b'\r')
+}
+
+/// Inline struct only (`parameter_list`): `(` fields `)` with every field typed.
+fn ref_struct(s: &[u8], i: usize, depth: usize) -> Rec {
+    if !(i < s.len() && s[i] == b'(') {
+        return Rec::No;
+    }
+    match ref_inline(s, i, depth) {
+        Rec::Yes(e, Kind::Struct) => Rec::Yes(e, Kind::Struct),
+        Rec::Yes(e, Kind::EmptyParens) => Rec::Yes(e, Kind::Struct),
+        Rec::Yes(_, _) => Rec::No,
+        other => other,
+    }
+}
+
+/// `_ keyword ws+ _ name _` ; returns the index after it.
+fn ref_member_head(s: &[u8], kw: &[u8]) -> Option<usize> {
+    let i = ref_ws(s, 0);
+    if !starts(s, i, kw) {
+        return None;
+    }
+    let mut j = i + kw.len();
+    if !(j < s.len() && ws1(s[j])) {
+        return None;
+    }
+    j = ref_ws(s, j);
+    let n = ref_type_name(&s[j..])?;
+    Some(ref_ws(s, j + n))
+}
+
+/// kind 1: `type Name (struct|enum)`; kind 2: `method Name struct -> struct`; kind 3: `error Name struct`.
+pub fn ref_member(kind: usize, s: &[u8]) -> Rec {
+    match kind {
+        1 => match ref_member_head(s, b"type") {
+            None => Rec::No,
+            Some(j) => {
+                if !(j < s.len() && s[j] == b'(') {
+                    return Rec::No;
+                }
+                ref_inline(s, j, 2)
+            }
+        },
+        2 => match ref_member_head(s, b"method") {
+            None => Rec::No,
+            Some(j) => match ref_struct(s, j, 2) {
+                Rec::Yes(e, _) => {
+                    let a = ref_ws(s, e);
+                    if !starts(s, a, b"->") {
+                        return Rec::No;
+                    }
+                    ref_struct(s, ref_ws(s, a + 2), 2)
+                }
+                other => other,
+            },
+        },
+        _ => match ref_member_head(s, b"error") {
+            None => Rec::No,
+            Some(j) => ref_struct(s, j, 2),
+        },
+    }
+}
+
+pub const MUT_LEN: usize = 40;
+/// (production, text): 0 type, 1 typedef, 2 method, 3 error.
+pub const CORPUS: [(usize, &str); 28] = [
+    (0, "?[string]?int"),
+    (0, "[]?[string]bool"),
+    (0, "(a: int, b)"),
+    (0, "(a, b: int)"),
+    (0, "(a: (b: ?T), c: [](x, y))"),
+    (0, "?(one, two)"),
+    (0, "[string](k: string)"),
+    (0, "[][]object"),
+    (0, "(a:float,b_c:?[]T)"),
+    (0, "[string][]?[string]?Foo"),
+    (1, "type T (a: int, b)"),
+    (1, "type T (a, b: int)"),
+    (1, "type Ab (x: ?[]int, y: T2)"),
+    (1, "type E (one, two)"),
+    (1, "type T ()"),
+    (2, "method M(a: int) -> (b: [string]?T)"),
+    (2, "method Ping() -> ()"),
+    (2, "method M(a:) -> ()"),
+    (3, "error NotFound (id: int)"),
+    (3, "error E ()"),
+    // short texts (<= 14 bytes): the loop bound of these instances is 16 instead of 42
+    (0, "?[string]?T"),
+    (0, "(a:T,b)"),
+    (0, "(a,b:T)"),
+    (0, "?(a,b)"),
+    (0, "[](a:?T)"),
+    (1, "type T(a:T,b)"),
+    (2, "method M()->()"),
+    (3, "error E(a:T)"),
+];
+
+/// Corpus text S with an arbitrary ASCII byte at position POS.
+pub fn idl_mut<const S: usize, const POS: usize>(nd: &mut Nd) {
+    let (kind, text) = CORPUS[S];
+    let tb = text.as_bytes();
+    let len = tb.len();
+    let mut b = [0u8; MUT_LEN];
+    let mut i = 0;
+    while i < len {
+        b[i] = tb[i];
+        i += 1;
+    }
+    let orig = b[POS];
+    b[POS] = nd.ascii();
+    let s = &b[..len];
+    let (real_used, real_kind): (Option<usize>, Option<Kind>) = match kind {
+        0 => {
+            let r = real::varlink_type(s);
+            let out = match &r {
+                Some((t, used)) => (Some(*used), Some(kind_of(t))),
+                None => (None, None),
+            };
+            core::mem::forget(r);
+            out
+        }
+        1 => {
+            let r = real::type_def(s);
+            let out = match &r {
+                Some((zlink_core::idl::CustomType::Object(_), used)) => (Some(*used), Some(Kind::Struct)),
+                Some((zlink_core::idl::CustomType::Enum(_), used)) => (Some(*used), Some(Kind::Enum)),
+                None => (None, None),
+            };
+            core::mem::forget(r);
+            out
+        }
+        2 => {
+            let r = real::method_def(s);
+            let out = match &r {
+                Some((_, used)) => (Some(*used), Some(Kind::Struct)),
+                None => (None, None),
+            };
+            core::mem::forget(r);
+            out
+        }
+        _ => {
+            let r = real::error_def(s);
+            let out = match &r {
+                Some((_, used)) => (Some(*used), Some(Kind::Struct)),
+                None => (None, None),
+            };
+            core::mem::forget(r);
+            out
+        }
+    };
+    let e = if kind == 0 { ref_type(s, 0, 2) } else { ref_member(kind, s) };
+    match (real_used, e) {
+        (_, Rec::Deep) => {}
+        (Some(used), Rec::Yes(n, k)) => {
+            assert!(used == n, "C13.production_consumes_exactly_the_longest_grammatical_match");
+            let got = real_kind.unwrap_or(Kind::Struct);
+            assert!(
+                got == k || (k == Kind::EmptyParens && (got == Kind::Enum || got == Kind::Struct)),
+                "C13.parsed_tree_has_the_denoted_constructor"
+            );
+        }
+        (None, Rec::No) => {}
+        (Some(_), Rec::No) => panic!("C13.ungrammatical_text_is_rejected"),
+        (None, Rec::Yes(..)) => panic!("C13.grammatical_text_is_accepted"),
+    }
+    cover!(nd, b[POS] != orig && matches!(e, Rec::Yes(..)), "mutated text still grammatical");
+    cover!(nd, matches!(e, Rec::No), "text rejected");
+}
